@@ -12,6 +12,7 @@ import (
 	"fmt"
 	"os"
 	"path/filepath"
+	"regexp"
 	"strings"
 )
 
@@ -95,6 +96,8 @@ func main() {
 	case "plain":
 	case "b3":
 		rws = append(rws, blockSizeRewrites(3)...)
+	case "sched":
+		rws = append(rws, blockSizeRewrites(3)...)
 	default:
 		if extra, ok := extraVariants[variant]; ok {
 			rws = append(rws, extra()...)
@@ -140,6 +143,26 @@ func main() {
 		contents[rw.file] = mod
 		applied = append(applied, rw.name)
 	}
+	if variant == "sched" {
+		for _, f := range schedFiles {
+			src, ok := contents[f]
+			if !ok {
+				b, err := os.ReadFile(filepath.Join(repo, f))
+				if err != nil {
+					fmt.Fprintf(os.Stderr, "instr: sched: %v\n", err)
+					continue
+				}
+				src = string(b)
+			}
+			mod, n := schedRewrite(f, src)
+			if n == 0 {
+				fmt.Fprintf(os.Stderr, "instr: sched: nothing rewritten in %s\n", f)
+				continue
+			}
+			contents[f] = mod
+			applied = append(applied, "sched:"+f)
+		}
+	}
 	for f, c := range contents {
 		p := filepath.Join(out, "src", f)
 		os.MkdirAll(filepath.Dir(p), 0755)
@@ -156,6 +179,12 @@ func main() {
 	vdir := filepath.Join(out, "verifrt")
 	os.MkdirAll(vdir, 0755)
 	os.WriteFile(filepath.Join(vdir, "verifrt.go"), rtSrc, 0644)
+	schedSrc, err := os.ReadFile(filepath.Join(filepath.Dir(os.Args[0]), "..", "rt", "sched.go.txt"))
+	if err != nil {
+		fatal(err)
+	}
+	os.WriteFile(filepath.Join(vdir, "sched.go"), schedSrc, 0644)
+	replace[filepath.Join(repo, "pkg/verifrt/sched.go")] = filepath.Join(vdir, "sched.go")
 	gen := fmt.Sprintf("package verifrt\n\n// Variant is the overlay variant this binary was built with.\nconst Variant = %q\n\n// Applied lists the source rewrites that were applied.\nvar Applied = %#v\n", variant, applied)
 	os.WriteFile(filepath.Join(vdir, "gen.go"), []byte(gen), 0644)
 	replace[filepath.Join(repo, "pkg/verifrt/verifrt.go")] = filepath.Join(vdir, "verifrt.go")
@@ -182,6 +211,9 @@ func main() {
 		if ok {
 			src = af.src
 			applied = append(applied, af.name)
+		}
+		if src == "" {
+			continue // no stub: leave the repository's file in place
 		}
 		pp := filepath.Join(out, "added", af.path)
 		os.MkdirAll(filepath.Dir(pp), 0755)
@@ -212,6 +244,24 @@ type addedFile struct {
 }
 
 var addedFiles = []addedFile{
+	{
+		// the repository measures memory by spawning awk on /proc/meminfo for every sorter and block
+		// buffer; harnesses create millions of them, so the measurement is replaced by constants
+		// (run sizes that matter are always given explicitly by the harnesses)
+		name: "fastmem",
+		path: "pkg/mem/mem_linux.go",
+		requires: map[string][]string{"pkg/mem/mem_linux.go": {
+			"func GetTotalMem() (uint64, error) {",
+			"func GetAvailMem() (uint64, error) {",
+		}},
+		src: `package mem
+
+func GetTotalMem() (uint64, error) { return 16 << 30, nil }
+
+func GetAvailMem() (uint64, error) { return 8 << 30, nil }
+`,
+		stub: "",
+	},
 	{
 		name: "export:packfile-header",
 		path: "pkg/encoding/packfile/verif_export.go",
@@ -250,6 +300,102 @@ func VerifDecodeHeader(r io.Reader) (int, uint64, error) {
 }
 `,
 	},
+}
+
+var schedFiles = []string{
+	"pkg/ingest/inserter.go", "pkg/sorter/sorter.go", "pkg/diff/diff.go", "pkg/merge/merger.go", "pkg/merge/row_collector.go",
+}
+
+// schedRewrite routes the concurrency constructs of one file through the verifrt shims:
+// go statements, channel sends / receives / range / close, reflect.Select, WaitGroup and Mutex
+// calls, and the iteration over the merger's map (its order is a scheduler-independent source
+// of nondeterminism the explorer must own).
+func schedRewrite(file, src string) (string, int) {
+	lines := strings.Split(src, "\n")
+	n := 0
+	indentOf := func(l string) string { return l[:len(l)-len(strings.TrimLeft(l, "\t"))] }
+	closeAt := func(from int, ind, closer, repl string) bool {
+		for j := from + 1; j < len(lines); j++ {
+			if lines[j] == ind+closer {
+				lines[j] = ind + repl
+				return true
+			}
+			if strings.TrimSpace(lines[j]) != "" && len(indentOf(lines[j])) < len(ind) {
+				return false
+			}
+		}
+		return false
+	}
+	reGoCall := regexp.MustCompile(`^(\t+)go ([A-Za-z_][\w.]*\(.*\))$`)
+	reSend := regexp.MustCompile(`^(\t+)([A-Za-z_][\w.]*) <- (.+)$`)
+	reRecv2 := regexp.MustCompile(`:= <-([A-Za-z_][\w.]*)`)
+	reRange := regexp.MustCompile(`^(\t+)for (\w+) := range (i\.blocks|origChan) \{$`)
+	reClose := regexp.MustCompile(`\bclose\(([A-Za-z_][\w.]*)\)`)
+	for i := 0; i < len(lines); i++ {
+		l := lines[i]
+		ind := indentOf(l)
+		trim := strings.TrimSpace(l)
+		switch {
+		case trim == "go func() {":
+			if closeAt(i, ind, "}()", "})") {
+				lines[i] = ind + "verifrt.Go(func() {"
+				n++
+			}
+		case reGoCall.MatchString(l):
+			m := reGoCall.FindStringSubmatch(l)
+			lines[i] = m[1] + "verifrt.Go(func() { " + m[2] + " })"
+			n++
+		case reRange.MatchString(l):
+			m := reRange.FindStringSubmatch(l)
+			lines[i] = m[1] + "for {\n" + m[1] + "\t" + m[2] + ", verifOK := verifrt.Recv(" + m[3] + ")\n" + m[1] + "\tif !verifOK {\n" + m[1] + "\t\tbreak\n" + m[1] + "\t}"
+			n++
+		case reSend.MatchString(l) && !strings.Contains(l, ":=") && !strings.HasPrefix(trim, "case "):
+			m := reSend.FindStringSubmatch(l)
+			if strings.HasSuffix(m[3], "{") {
+				if closeAt(i, ind, "}", "})") {
+					lines[i] = m[1] + "verifrt.Send(" + m[2] + ", " + m[3]
+					n++
+				}
+			} else {
+				lines[i] = m[1] + "verifrt.Send(" + m[2] + ", " + m[3] + ")"
+				n++
+			}
+		}
+		l = lines[i]
+		if reRecv2.MatchString(l) && !strings.Contains(l, "case ") {
+			lines[i] = reRecv2.ReplaceAllString(l, ":= verifrt.Recv($1)")
+			n++
+		}
+		l = lines[i]
+		if reClose.MatchString(l) && !strings.Contains(l, "func ") {
+			lines[i] = reClose.ReplaceAllString(l, "verifrt.Close($1)")
+			n++
+		}
+	}
+	out := strings.Join(lines, "\n")
+	for _, r := range [][2]string{
+		{"reflect.Select(cases)", "verifrt.ReflectSelect(cases)"},
+		{"i.wg.Add(1)", "verifrt.WgAdd(&i.wg, 1)"},
+		{"defer i.wg.Done()", "defer verifrt.WgDone(&i.wg)"},
+		{"i.wg.Wait()", "verifrt.WgWait(&i.wg)"},
+		{"i.mutex.Lock()", "verifrt.Lock(&i.mutex)"},
+		{"i.mutex.Unlock()", "verifrt.Unlock(&i.mutex)"},
+		{"\t\ti.rowsCount += uint32(blk.RowsCount)", "\t\tverifrt.Access(&i.rowsCount, true, \"Inserter.rowsCount\")\n\t\ti.rowsCount += uint32(blk.RowsCount)"},
+		{"\t\ti.asyncBlocks = append(i.asyncBlocks, asyncBlock{", "\t\tverifrt.Access(&i.asyncBlocks, true, \"Inserter.asyncBlocks\")\n\t\ti.asyncBlocks = append(i.asyncBlocks, asyncBlock{"},
+		{"\ti.tbl.RowsCount = i.rowsCount", "\tverifrt.Access(&i.rowsCount, false, \"Inserter.rowsCount\")\n\tverifrt.Access(&i.asyncBlocks, false, \"Inserter.asyncBlocks\")\n\ti.tbl.RowsCount = i.rowsCount"},
+		{"for _, obj := range merges {", "for _, verifK := range verifrt.MapOrder(\"merger.merges\", merges) {\n\t\tobj := merges[verifK]"},
+	} {
+		if strings.Contains(out, r[0]) {
+			out = strings.ReplaceAll(out, r[0], r[1])
+			n++
+		}
+	}
+	if n > 0 && !strings.Contains(out, "pkg/verifrt\"") {
+		if i := strings.Index(out, "import (\n"); i >= 0 {
+			out = out[:i+9] + "\tverifrt \"github.com/wrgl/wrgl/pkg/verifrt\"\n" + out[i+9:]
+		}
+	}
+	return out, n
 }
 
 var extraVariants = map[string]func() []rewrite{}
